@@ -4,11 +4,11 @@ import json, os
 ROOT = os.path.dirname(os.path.dirname(os.path.abspath(__file__)))
 CLAIMS = {
  'C01': ('Verus: contracts on the real text of same_day, bed_and_breakfast, section104, acquisition_ledger, process_sell (rule order, leg quantities, window 0<days<=30, weighted same-day cost, pool average cost, per-look-ahead reservations, claim ledger); Kani: the two day-difference tests accept exactly 1..=30 (complete over i64), thorough tier adds the calendar part on the real chrono.',
-         'Unbounded in ledger length and iteration count; relative to A-dec (exact decimals), A-date, A-map. The day loop is proved to add the day\'s purchases before its sales, to pool after the sales and to leave nothing of earlier days unallocated (L2: inv_lots, day order, pooling); the reservation sum over a day\'s lots (INV_RES) is not machine-checked; "nothing skipped in the window" and equality with an independent whole-ledger evaluation are not decided.'),
+         'Unbounded in ledger length and iteration count; relative to A-dec (exact decimals), A-date, A-map. The day loop is proved to add the day\'s purchases before its sales, to pool after the sales and to leave nothing of earlier days unallocated (L2: inv_lots, day order, pooling); NOTHING SKIPPED (INV_LEGS closed): Matcher::process returns, for every (disposal date, security), legs whose quantities add up to exactly the shares the caller\'s list sells of that security on that date (through the sort/merge of preprocess, whose per-day totals are proved order- and fill-split-independent, and through every SELL line of the day loop). The reservation sum over a day\'s lots (INV_RES) is not machine-checked; "nothing skipped in the 30-day window" and equality with an independent whole-ledger evaluation are not decided.'),
  'C02': ('Verus: every lot operation preserves wf_lot (consumed+reserved+in_pool<=original, all >=0) and moves exactly the reported amount; legs of a sale sum to its quantity (process_sell: Ok => sum == amount); claims against a purchase never exceed it (fc_capped through the look-ahead and the day loop); pool quantity updates on pooling / S104 / SPLIT / UNSPLIT.',
-         'Step-wise conservation proved for all inputs; the whole-history sentence "closing holding = acquisitions - disposals rescaled" needs the inductive invariant INV_POS on Matcher::process, which is not machine-checked. A-dec.'),
+         'Step-wise conservation proved for all inputs; END-TO-END for the first sentence (C02.leg_sum.total, INV_LEGS): the legs Matcher::process returns for a (date, security) add up to the quantity the input sells that day, for every ledger it accepts. The whole-history sentence "closing holding = acquisitions - disposals rescaled" needs the inductive invariant INV_POS on Matcher::process, which is not machine-checked. A-dec.'),
  'C03': ('Verus: one unit cost per lot used by same-day, 30-day and pooling; same-day legs consume lots proportionally so leg cost == sum(consumed_k * unit_k); pooled cost == cost of exactly the shares marked in_pool; S104 leg cost leaves the pool; capital-return/accumulation offsets sum to exactly the adjustment.',
-         'END-TO-END (INV_COST closed): Matcher::process carries, through every loop of the day cycle and for every security, legs + pool + unallocated - pending 30-day claims == cost of all lots, with every lot equal to its BUY line incl. its capital-return offset (inv_lots); at the end nothing is unallocated and no claim is pending, so cost of all legs + closing pool cost == sum over the lots of quantity x unit cost. Relative to the PREPROCESSED list (that same-day merging conserves consideration and fees is not decided), to quantity x unit cost == quantity x price + fees + offset (false only for a zero-quantity BUY with fees, whose fees the tool drops), and to A-dec (28-digit rounding of * and / is not modelled). That every BUY has exactly one lot is proved per day (buys_added_all), not yet as a global bijection.'),
+         'END-TO-END (INV_COST closed): Matcher::process carries, through every loop of the day cycle and for every security, legs + pool + unallocated - pending 30-day claims == cost of all lots, with every lot equal to its BUY line incl. its capital-return offset (inv_lots); at the end nothing is unallocated and no claim is pending, so cost of all legs + closing pool cost == sum over the lots of quantity x unit cost. Relative to the PREPROCESSED list (that same-day merging conserves shares, consideration and fees per (date, security, side) is proved separately: C04.merge), to quantity x unit cost == quantity x price + fees + offset (false only for a zero-quantity BUY with fees, whose fees the tool drops), and to A-dec (28-digit rounding of * and / is not modelled). That every BUY has exactly one lot is proved per day (buys_added_all), not yet as a global bijection.'),
  'C05': ('Verus: process_sell returns Err before any state change when the sale exceeds same-day availability + pool quantity; legs of an accepted sale sum to the quantity sold.',
          'Decides the form of the holding check and no-partial-state of the core. The soundness obligation C05.sound (an accepted sale is covered once shares already matched with later purchases are subtracted) is written, FAILS on the current tree and is reported as KNOWN-FINDING F2 with a replayed witness ledger (known-findings.json); the completeness direction and the whole-history cover condition need INV_POS (not machine-checked); CLI/MCP front-ends are A-ext.'),
  'C09': ('Verus frame clauses: every mutating matcher function changes ledgers/pools only at the transaction\'s own ticker; the look-ahead changes claims only at same-ticker buys in the window.',
